@@ -491,12 +491,15 @@ pub fn get_best_move_until_stop(
         println!("info depth {}", depth);
         println!("info score cp {}", best_score);
         println!("info nodes {}", table.len());
-        print!("info pv ");
+        // The line is written in one piece: the stdin loop answers `isready` from
+        // another thread and its `readyok` must not land in the middle of this line
+        let mut pv_line = String::from("info pv ");
         for _ in 0..depth {
             if let Some(entry) = table.get(&hash) {
                 if let Some(pv) = entry.pv {
                     game_clone.push(pv);
-                    print!("{} ", pv.uci_notation());
+                    pv_line.push_str(&pv.uci_notation());
+                    pv_line.push(' ');
                     hash = game_clone.hash();
                 } else {
                     break;
@@ -505,7 +508,7 @@ pub fn get_best_move_until_stop(
                 break;
             }
         }
-        println!();
+        println!("{}", pv_line);
 
         // If mate can be forced, or there is only a single move available, stop searching
         if max_depth.is_some_and(|d| d <= depth)
